@@ -243,8 +243,16 @@ def _model_args(ts, ba, bs, pi, pr, pc, a):
 
 
 # ------------------------------------------------------------------ one request through implementation, oracle, model
+def _unaligned_allocated(case, detail, site):
+    """the face of the open finding C07-bits-allocated-not-byte-multiple: a native frame accepted with a bits_allocated
+    that is neither 1 nor a multiple of 8, which no decoder takes"""
+    return case.get('ts') in NATIVE and isinstance(case.get('ba'), int) and case['ba'] > 1 and case['ba'] % 8 != 0 \
+        and site in ('roundtrip', 'one-frame') and isinstance(detail, str) and "'Bits Allocated' value of" in detail \
+        and 'is invalid' in detail
+
+
 class _Capped:
-    """the two open findings fail on every frame of their class; report the first 40 observations of each as failures
+    """the open findings fail on every frame of their class; report the first 40 observations of each as failures
     (they are attributed), count the rest, so that they cannot crowd other failures out of the failure list"""
 
     def __init__(self, ctx):
@@ -261,6 +269,8 @@ class _Capped:
                 and case['ba'] >= 16 and (case['bs'] + 7) // 8 < case['ba'] // 8 and isinstance(detail, str) \
                 and 'decoded RLE segment data' in detail:
             cls = 'rle-narrow'
+        elif _unaligned_allocated(case, detail, site):
+            cls = 'unaligned-allocated'
         if cls is not None:
             n = getattr(self.ctx, '_c07_known', {})
             n[cls] = n.get(cls, 0) + 1
@@ -393,6 +403,16 @@ def _cells(ctx, reqs, pending):
                     if b is not None:
                         _check(ctx, 'side-outside', ts, dt, ba, bs, None, 'MONOCHROME2', pr, None, b, reqs, pending)
                         side += 1
+    # bits allocated that is neither 1 nor a multiple of 8 (PS3.5 8.1.1 excludes it): the cell width highdicom accepts for
+    # it is ceil(bits_allocated / 8) bytes (SCImage hands 12 with uint16 cells); whatever is accepted must round-trip
+    for ts in (IMPLICIT, EXPLICIT, RLE, JLS):
+        for dt, ba, bs, pr in (('uint16', 12, 12, 0), ('uint16', 12, 10, 0), ('int16', 12, 12, 1), ('uint8', 4, 4, 0), ('uint8', 7, 7, 0),
+                               ('uint16', 9, 9, 0), ('uint16', 15, 15, 0), ('uint32', 24, 24, 0), ('uint32', 17, 17, 0),
+                               ('uint8', 12, 12, 0), ('uint16', 4, 4, 0), ('uint32', 12, 12, 0), ('int8', 12, 12, 1)):
+            shp = (16, 16) if ts == JLS else (4, 6)
+            a = _mk_array(ctx.np_rng('side-unaligned', side), dt, shp, ba, bs, pr)
+            _check(ctx, 'side-unaligned', ts, dt, ba, bs, None, 'MONOCHROME2', pr, None, a, reqs, pending)
+            side += 1
     # JPEG 2000 needs 32x32; 1-bit branch looks at dtype and max
     for ts, dt, ba, pi, pc, s in [(J2KL, 'uint8', 8, 'MONOCHROME2', None, None), (J2KL, 'bool', 1, 'MONOCHROME2', None, None),
                                   (J2KL, 'uint8', 1, 'MONOCHROME2', None, None), (J2K, 'uint8', 8, 'YBR_ICT', 0, 3),
@@ -543,7 +563,9 @@ def attribute(failure, open_findings):
     """C07-ybr-full-decoded-as-rgb: decode_frame returns YBR_FULL frames converted to RGB (native and RLE), or fails
     in that conversion for other than 8-bit unsigned samples.
     C07-rle-narrow-stored: pydicom's array path shrinks the cells to ceil(bits_stored/8) bytes before RLE encoding
-    bits_allocated/8 byte planes -> undecodable RLE data when bits_stored <= bits_allocated - 8."""
+    bits_allocated/8 byte planes -> undecodable RLE data when bits_stored <= bits_allocated - 8.
+    C07-bits-allocated-not-byte-multiple: native syntaxes accept a bits_allocated that is neither 1 nor a multiple of 8 (cells of
+    ceil(bits_allocated/8) bytes); decode_frame / pydicom refuse that value, so the accepted frame cannot be read."""
     ids = {f['id'] for f in open_findings}
     c = failure.get('case') or {}
     d = failure.get('detail')
@@ -558,4 +580,6 @@ def attribute(failure, open_findings):
             and isinstance(c.get('ba'), int) and isinstance(c.get('bs'), int) and c['ba'] >= 16 \
             and (c['bs'] + 7) // 8 < c['ba'] // 8 and isinstance(d, str) and 'decoded RLE segment data' in d:
         return 'C07-rle-narrow-stored'
+    if 'C07-bits-allocated-not-byte-multiple' in ids and _unaligned_allocated(c, d, site):
+        return 'C07-bits-allocated-not-byte-multiple'
     return None
